@@ -10,7 +10,7 @@ F36_KNOWN = True
 
 SERVICE_CLAUSES_C07 = ["C07_DepositEscrow", "C07_RequestEscrow", "C07_OwnerTally", "C07_Charge", "C07_Answer",
                        "C07_Expire", "C07_Withdraw", "C07_Frame", "C07_ScaleExact", "Rejected_NoEffect"]
-SERVICE_CLAUSES_C08 = ["C08_OneOutcome", "C08_RespondGuards", "C08_OneShot", "C08_Schedule", "C08_Authority",
+SERVICE_CLAUSES_C08 = ["C08_OneOutcome", "C08_RespondGuards", "C08_OneShot", "C08_CallFresh", "C08_Schedule", "C08_Authority",
                        "C08_Callback", "C08_Funds"]
 # clause names of ServiceTrace.tla that belong to C13 (aggregated by the lead)
 C13_CLAUSES_SERVICE = ["C13_QueueSound", "C13_QueueComplete", "C13_OnceOnTime", "C13_NoHalt"]
